@@ -101,11 +101,13 @@ def enabled (d : DState) : List TLabel :=
     | _, _ => []
   let cmd := if d.t.cmdQ.isEmpty then [] else [TLabel.takeCmd]
   let idle := if d.t.idleEnabled then [TLabel.idleExit] else []
-  -- `tokio::time::timeout(open_timeout, ..)` around every negotiation
-  let tmo := if d.timeouts then
-      (List.range d.t.subs.length).filterMap fun k => if subNegotiating d k then some (TLabel.negFail k) else none
-    else []
-  acc ++ inb ++ out ++ cmd ++ idle ++ tmo
+  acc ++ inb ++ out ++ cmd ++ idle
+
+/-- Transitions that MAY fire: `tokio::time::timeout(open_timeout, ..)` around every negotiation, in a connection
+whose `substream_open_timeout` was made small (`sot=`). -/
+def enabledOpt (d : DState) : List TLabel :=
+  if d.t.running = false || d.phase != .up || !d.timeouts then [] else
+  (List.range d.t.subs.length).filterMap fun k => if subNegotiating d k then some (TLabel.negFail k) else none
 
 def pushInq (inq : List (List Nat)) (p k : Nat) : List (List Nat) :=
   match inq[p]? with
@@ -196,8 +198,9 @@ partial def exploreK (work : List DState) (seen : List String) (finals : List DS
     let k := key d
     if seen.contains k then exploreK rest seen finals else
     let evs := enabled d
-    if evs.isEmpty then exploreK rest (k :: seen) (finals ++ [d])
-    else exploreK (evs.map (apply d) ++ rest) (k :: seen) finals
+    let opt := enabledOpt d
+    if evs.isEmpty then exploreK (opt.map (apply d) ++ rest) (k :: seen) (finals ++ [d])
+    else exploreK ((evs ++ opt).map (apply d) ++ rest) (k :: seen) finals
 
 def explore (work : List DState) (_seen _finals : List DState) : List DState := exploreK work [] []
 
